@@ -183,6 +183,15 @@ def c01sys (args res : List String) : Verdict :=
                   if t.startsWith "w=hv," then (t.drop 5).toString.toNat? else none
             if announced.any (fun i => !(seen'.any fun f => f.startsWith s!"{listed i}:x{listed i}:")) then
               some (vProp "T2-have-announced-for-a-piece-without-a-verified-piece-file" s!"sys-ev{min n 9}") else
+            -- C12 on the implementation's snapshot: a piece that is Reserved is the assigned piece of some connected peer
+            -- (a piece whose download failed - hash mismatch, lost connection - becomes downloadable again)
+            let assigned : List Nat := if psS = "-" then [] else
+              (psS.splitOn ",").filterMap fun e => match e.splitOn ":" with
+                | [_, idx, _] => idx.toNat?
+                | _ => none
+            let stale := (List.range implSt.length).find? fun i =>
+              (match implSt.getD i .missing with | .reserved _ => true | _ => false) && !assigned.contains i
+            if stale.isSome then some (vProp "T3-piece-stays-reserved-with-no-connection-fetching-it" s!"sys-ev{min n 9}") else
             -- ... and the bitfield sent after a handshake marks only such pieces (C01/C11: advertised only when stored)
             let bitfields : List Bytes := if wrS = "-" then [] else
               (wrS.splitOn "+").flatMap fun part =>
